@@ -54,13 +54,23 @@ class LotkaVolterraOscillating:
             loc=mean, covariance_matrix=covariance
         )
         self._uniform = BoxUniform(low=-5 * torch.ones(4), high=2 * torch.ones(4))
+        # Mass of the Gaussian inside the box [-5, 2]^4: per dimension
+        # Phi((b - mean) / sigma) - Phi((a - mean) / sigma), Phi(z) = (1 + erf(z / sqrt(2))) / 2.
         self._log_normalizer = -torch.log(
-            torch.erf((2 - mean) / sigma) - torch.erf((-5 - mean) / sigma)
+            0.5
+            * (
+                torch.erf((2 - mean) / (sigma * 2 ** 0.5))
+                - torch.erf((-5 - mean) / (sigma * 2 ** 0.5))
+            )
         ).sum()
+        # The uniform only restricts the support; its own constant density must not enter.
+        self._uniform_log_density = self._uniform.log_prob(mean)
 
     def log_prob(self, value):
-        unnormalized_log_prob = self._gaussian.log_prob(value) + self._uniform.log_prob(
-            value
+        unnormalized_log_prob = (
+            self._gaussian.log_prob(value)
+            + self._uniform.log_prob(value)
+            - self._uniform_log_density
         )
 
         return self._log_normalizer + unnormalized_log_prob
